@@ -172,7 +172,9 @@ def changed_bonds(rep):
         rep.ob("O2.2", "SRC", fi, oks if keys else None, c, "the centre bond keeps the ITS standard_order", node=c)
     # both end nodes ensured from the ITS
     ens = [c for c in walk_local(lp) if isinstance(c, ast.Call) and call_name(c) == "_ensure_node"]
-    ends = sorted(norm(c.args[2]) for c in ens if len(c.args) >= 3)
+    roles0 = _ensure_roles(rep)
+    ni = roles0["node"] if roles0 else 2
+    ends = sorted(norm(c.args[ni]) for c in ens if len(c.args) > ni)
     loop_vars = set()
     for c in ens:
         for l in enclosing_loops(pm, c, lp):
@@ -181,16 +183,45 @@ def changed_bonds(rep):
     covered = set(ends) | loop_vars
     rep.ob("O2.3", "LOOP", fi, {u, v} <= covered, f"_ensure_node for {sorted(covered)}",
            "both end atoms of an included bond are put into the centre")
+    roles = _ensure_roles(rep)   # positions of (written graph, read graph, node, keys) in _ensure_node's signature, found from what it does
     for c in ens:
-        ok = len(c.args) >= 4 and norm(c.args[0]) == P[1] and norm(c.args[1]) == P[0] and norm(c.args[3]) == P[2]
+        ok = None
+        if roles is not None and len(c.args) > max(roles.values()):
+            ok = norm(c.args[roles["written"]]) == P[1] and norm(c.args[roles["read"]]) == P[0] and norm(c.args[roles["keys"]]) == P[2]
         gs = guards_of(pm, c, lp)
         only_pred = all(s_ and isinstance(t, ast.Call) and call_name(t) == "_should_include_edge" for t, s_ in gs)
         rep.ob("O2.3", "SRC", fi, ok and only_pred, c, "end atoms are copied from the ITS into rc with the requested label keys", node=c)
 
 
+def _ensure_roles(rep):
+    """{'written': i, 'read': j, 'node': k, 'keys': l}: which parameter of _ensure_node is the graph that receives the node, which the graph it is copied
+    from, which the node and which the label keys - read off the body, not off the parameter order"""
+    fi = rep.f(ITSD, "_ensure_node")
+    P = list(fi.params)
+    defs = local_defs(fi.node)
+    adds = [c for c in walk_local(fi.node) if isinstance(c, ast.Call) and call_name(c) == "add_node" and isinstance(c.func.value, ast.Name) and c.func.value.id in P]
+    if len(adds) != 1 or not adds[0].args or not isinstance(adds[0].args[0], ast.Name) or adds[0].args[0].id not in P:
+        return None
+    w, nd = adds[0].func.value.id, adds[0].args[0].id
+    star = [k.value for k in adds[0].keywords if k.arg is None]
+    src = origin(defs, star[0]) if star else None
+    if not isinstance(src, ast.DictComp) or not isinstance(src.generators[0].iter, ast.Name) or src.generators[0].iter.id not in P:
+        return None
+    keys = src.generators[0].iter.id
+    val_src = origin(defs, src.value.value) if isinstance(src.value, ast.Subscript) else src.value
+    readers = [p_ for p_ in P if p_ not in (w, nd, keys) and p_ in {n.id for n in ast.walk(val_src) if isinstance(n, ast.Name)}]
+    if len(readers) != 1:
+        return None
+    return {"written": P.index(w), "read": P.index(readers[0]), "node": P.index(nd), "keys": P.index(keys)}
+
+
 def ensure_node(rep):
     fi = rep.f(ITSD, "_ensure_node")
-    P = fi.params  # rc, ITS, node, element_key
+    roles = _ensure_roles(rep)
+    P = fi.params
+    if roles is not None:
+        # canonical order (written, read, node, keys) whatever the signature's order is
+        P = [fi.params[roles["written"]], fi.params[roles["read"]], fi.params[roles["node"]], fi.params[roles["keys"]]]
     defs = local_defs(fi.node)
     adds = recv_calls(fi.node, P[0], "add_node")
     rep.need("SRC", len(adds), 1, "rc.add_node in _ensure_node")
